@@ -23,7 +23,7 @@ from pydrex import exceptions as _err
 from pydrex import minerals as _minerals
 
 from vlib import gen
-from vlib.harness import Rejected, Violation, sut
+from vlib.harness import Rejected, Violation, check_budget, sut
 
 ACCEPTED_REGIMES = [1, 4, 6, 0, 7]  # matrix_diffusion, matrix_dislocation, frictional_yielding, min/max viscosity
 DISL_REGIMES = [4, 6]
@@ -97,8 +97,8 @@ def param_spec(chi=None, M=None):
     )
 
 
-def f0_spec():
-    return st.one_of(
+def f0_spec(large=False):
+    opts = [
         st.fixed_dictionaries({"k": st.just("I")}),
         st.fixed_dictionaries(
             {
@@ -108,7 +108,22 @@ def f0_spec():
                 "s": st.lists(st.floats(0.4, 2.5), min_size=3, max_size=3),
             }
         ),
-    )
+    ]
+    if large:
+        # the deformation gradient of a run that is being continued after a very large strain
+        # (principal stretches 1e-3 .. 1e8)
+        opts.append(
+            st.fixed_dictionaries(
+                {
+                    "k": st.just("RS"),
+                    "R": gen.rotation_spec(),
+                    "Q": gen.rotation_spec(),
+                    "s": st.lists(st.integers(-30, 80).map(lambda i: 10.0 ** (i / 10.0)), min_size=3, max_size=3),
+                }
+            )
+        )
+        opts = [opts[2], opts[0], opts[1], opts[2]]
+    return st.one_of(*opts)
 
 
 def flow_spec(max_T=2.0, allow_trace=True, rate_exp=(-16.0, 3.0)):
@@ -213,8 +228,10 @@ def params_dict(ps, assemblage=(0,), fractions=(1.0,), n_grains=None):
     d["gbs_threshold"] = float(ps["chi"])
     if n_grains is not None:
         # params["number_of_grains"] is only a default for constructing minerals; a Mineral
-        # carries its own n_grains.  The two deliberately differ for even grain counts.
-        d["number_of_grains"] = int(n_grains) if int(n_grains) % 2 else 3500
+        # carries its own n_grains.  The two deliberately differ for even grain counts, in
+        # both directions (a dictionary made for a finer or for a coarser aggregate).
+        n = int(n_grains)
+        d["number_of_grains"] = n if n % 2 else (3500 if n % 4 == 0 else 1)
     return d
 
 
@@ -282,6 +299,7 @@ class Flow:
     def get_velocity_gradient(self, t, x):
         """Steady flows hand out one and the same array on every call (`lambda t, x: L`, the
         commonest user callable); whatever was handed out must never be written to."""
+        check_budget()
         self._audit()
         if not (self.time_dependent or self.position_dependent):
             if self._const is None:
